@@ -139,7 +139,12 @@ def run_mid(case, cx, words_universe):
         if outcome != "interrupted":
             break
     iterative = bool(case.get("pack", {}).get("iterative") or case.get("iterative"))
-    if not iterative and outcome != ref.outcome:
+    # The outcome is compared in the word universe only.  In an integer universe a class can
+    # be "verified" by pruning before all of its rows were tried; it is then not expanded any
+    # further, and which of its rules (e.g. a two-way rule to a class without rules of its
+    # own) are ever found depends on when has_specification was polled - the interrupted and
+    # the reference run poll at different moments, legitimately.
+    if words_universe and not iterative and outcome != ref.outcome:
         cx.violation("C17:resumed-diverges-from-reference:outcome",
                      f"search interrupted {interruptions}x inside an expansion period ends with {outcome}, "
                      f"the uninterrupted one with {ref.outcome}", None)
